@@ -149,6 +149,138 @@ func fragmentAddressingSeeds(cor *corpus.Corpus) []namedSeed {
 	return out
 }
 
+// sidxSpec describes one hand-written sidx box of topSidxSeeds.
+type sidxSpec struct {
+	ver         byte
+	refID       uint32
+	firstOffset uint64
+	refs        [][2]uint32 // reference_type (0 media, 1 sidx), referenced_size
+}
+
+func (s sidxSpec) bytes() []byte {
+	p := [][]byte{rb32(uint32(s.ver) << 24), rb32(s.refID), rb32(90000)}
+	if s.ver == 0 {
+		p = append(p, rb32(0), rb32(uint32(s.firstOffset)))
+	} else {
+		p = append(p, rb64(0), rb64(s.firstOffset))
+	}
+	p = append(p, []byte{0, 0, byte(len(s.refs) >> 8), byte(len(s.refs))})
+	for _, r := range s.refs {
+		p = append(p, rb32(r[0]<<31|r[1]&0x7fffffff), rb32(3072), rb32(0x90000000))
+	}
+	return rawBox("sidx", p...)
+}
+
+// trackFragment is plainFragment (default-base-is-moof, trun with data_offset:
+// position independent) for another track id.
+func trackFragment(seq, trackID uint32, n int) []byte {
+	f := plainFragment(0, seq, 0x020000, true, n, false)
+	if i := bytes.Index(f, []byte("tfhd")); i >= 0 {
+		binary.BigEndian.PutUint32(f[i+8:], trackID)
+	}
+	return f
+}
+
+// topSidxSeeds are fragmented files (DASH on-demand style) with 1, 2 and 3
+// sidx boxes at the top level in front of the first segment, every
+// first_offset and referenced_size correct: one sidx per track (different
+// reference_ID, each over all the media), two flat sidx boxes each over one
+// segment, a hierarchical index (a parent whose references point at two child
+// sidx boxes); versions 0 and 1 mixed; with and without an init segment (made
+// by CreateEmptyInit/AddEmptyTrack), with and without styp boxes in front of
+// the segments, and with further sidx boxes between the segments (which
+// belong to the second segment).
+func topSidxSeeds() []namedSeed {
+	var out []namedSeed
+	var initBytes []byte
+	func() {
+		defer func() { _ = recover() }()
+		init := mp4.CreateEmptyInit()
+		for i := 0; i < 3; i++ {
+			init.AddEmptyTrack(90000, []string{"video", "audio", "video"}[i], "und")
+		}
+		var buf bytes.Buffer
+		if init.Encode(&buf) == nil {
+			initBytes = buf.Bytes()
+		}
+	}()
+	styp := rawBox("styp", []byte("msdh"), rb32(0), []byte("msdhmsix"))
+	for _, layout := range []string{"one", "per-track-2", "per-track-3", "flat-2", "hierarchical-3"} {
+		for _, withInit := range []bool{true, false} {
+			for _, withStyp := range []bool{false, true} {
+				for _, between := range []bool{false, true} {
+					if withInit && initBytes == nil || between && !withStyp {
+						continue
+					}
+					// the media: two segments, one fragment per track in each (per-track layouts) or one fragment each
+					ntr := 1
+					if layout == "per-track-2" {
+						ntr = 2
+					} else if layout == "per-track-3" {
+						ntr = 3
+					}
+					var segs [2][]byte
+					seq := uint32(1)
+					for si := range segs {
+						if withStyp {
+							segs[si] = append(segs[si], styp...)
+						}
+						if between && si == 1 {
+							// segment-level index of the second segment: two sidx boxes between the segments
+							var fr []byte
+							for t := 1; t <= ntr; t++ {
+								fr = append(fr, trackFragment(seq+uint32(t-1), uint32(t), 2+si)...)
+							}
+							b := sidxSpec{ver: 1, refID: 1, refs: [][2]uint32{{0, uint32(len(fr))}}}.bytes()
+							a := sidxSpec{ver: 0, refID: 1, firstOffset: uint64(len(b)), refs: [][2]uint32{{0, uint32(len(fr))}}}.bytes()
+							segs[si] = append(append(segs[si], a...), b...)
+						}
+						for t := 1; t <= ntr; t++ {
+							segs[si] = append(segs[si], trackFragment(seq, uint32(t), 2+si)...)
+							seq++
+						}
+					}
+					l0, l1 := uint32(len(segs[0])), uint32(len(segs[1]))
+					var sx []sidxSpec
+					switch layout {
+					case "one":
+						sx = []sidxSpec{{ver: 0, refID: 1, refs: [][2]uint32{{0, l0}, {0, l1}}}}
+					case "per-track-2", "per-track-3":
+						for t := 1; t <= ntr; t++ {
+							sx = append(sx, sidxSpec{ver: byte(t & 1), refID: uint32(t), refs: [][2]uint32{{0, l0}, {0, l1}}})
+						}
+					case "flat-2":
+						sx = []sidxSpec{{ver: 1, refID: 1, refs: [][2]uint32{{0, l0}}}, {ver: 0, refID: 1, firstOffset: uint64(l0), refs: [][2]uint32{{0, l1}}}}
+					case "hierarchical-3":
+						sx = []sidxSpec{{ver: 0, refID: 1}, {ver: 0, refID: 1, refs: [][2]uint32{{0, l0}}}, {ver: 1, refID: 1, firstOffset: uint64(l0), refs: [][2]uint32{{0, l1}}}}
+						sx[0].refs = [][2]uint32{{1, uint32(len(sx[1].bytes()))}, {1, uint32(len(sx[2].bytes()))}}
+					}
+					// first_offset counts from the end of the sidx box itself: add the sidx boxes that follow
+					// (the parent of the hierarchy points at its first child, which follows directly)
+					for i := range sx {
+						if layout == "hierarchical-3" && i == 0 {
+							continue
+						}
+						for j := i + 1; j < len(sx); j++ {
+							sx[i].firstOffset += uint64(len(sx[j].bytes()))
+						}
+					}
+					var f []byte
+					if withInit {
+						f = append(f, initBytes...)
+					}
+					for _, s := range sx {
+						f = append(f, s.bytes()...)
+					}
+					f = append(append(f, segs[0]...), segs[1]...)
+					out = append(out, namedSeed{fmt.Sprintf("crafted#top-sidx[%s,init=%v,styp=%v,sidx-between-segments=%v]", layout, withInit, withStyp, between), f})
+				}
+			}
+		}
+	}
+	return out
+}
+
 // PartsOf returns, for an input that decodes to a fragmented file, one media
 // segment and one of its fragments (per file decode path for unmutated seeds
 // and replays, else through one of the two paths) as structures of their
